@@ -38,6 +38,7 @@ structure InvC (st0 : St) (c : Conf) : Prop where
   /-- success is only reported with the ready bit -/
   doneReady : c.pc = .done → has c.st bReady = true
 
+set_option maxRecDepth 4096 in
 theorem invC_step (C : List Feature) (O : Oracle) (st0 : St) (c : Conf) (h : InvC st0 c) :
     InvC st0 (step C O c) := by
   obtain ⟨hp, hd⟩ := h
@@ -57,8 +58,8 @@ theorem invC_step (C : List Feature) (O : Oracle) (st0 : St) (c : Conf) (h : Inv
        · first
          | exact Or.inr (Or.inl h1)
          | exact Or.inr (Or.inl (featReady_cons _ h1))
-       · simp_all
-       · simp_all)
+       · first | (simp only [h1, reduceCtorEq] at *; done) | simp_all
+       · first | (simp only [h1, reduceCtorEq] at *; done) | simp_all)
     | (intro h
        have hh := has_ready_or _ _ h
        rcases hh with h1 | h1
@@ -73,10 +74,15 @@ theorem invC_step (C : List Feature) (O : Oracle) (st0 : St) (c : Conf) (h : Inv
 
 /-! ### invariant E: a restart is followed by a stream header -/
 
-/-- a stream header is written or read -/
+def IoOp.isHdr : IoOp → Bool
+  | .hdrOut | .hdrIn => true
+  | _ => false
+
+/-- a stream header is written or read (or the attempt blocks) -/
 def Ev.isHdr : Ev → Bool
   | .hdrOut _ => true
   | .rd .hdr _ => true
+  | .blocked op => op.isHdr
   | _ => false
 
 /-- a `Negotiate` that succeeded and returned a new connection layer -/
@@ -114,6 +120,7 @@ theorem restartOK_cons {e : Ev} {tr : List Ev} (h : RestartOK tr)
   | nil => exact True.intro
   | cons e' rest => exact ⟨hh, h⟩
 
+set_option maxRecDepth 4096 in
 theorem invE_step (C : List Feature) (O : Oracle) (c : Conf) (h : InvE c) : InvE (step C O c) := by
   obtain ⟨ho, hp, ht⟩ := h
   step_all
@@ -123,9 +130,12 @@ theorem invE_step (C : List Feature) (O : Oracle) (c : Conf) (h : InvE c) : InvE
     | exact hp
     | exact ht
     | (intro h; rcases h with h | h <;> cases h; done)
+    | (intro _ h; have hh := hp h; unfold pendR at hh; rw [‹c.pc = _›] at hh; cases hh; done)
+    | (intro h; have hh := hp h; unfold pendR at hh; rw [‹c.pc = _›] at hh; cases hh; done)
     | (intro _ h; have hh := hp h; simp_all [pendR]; done)
     | (intro h; have hh := hp h; simp_all [pendR]; done)
-    | (refine restartOK_cons ho ?_; intro h; have hh := hp h; simp_all [pendR, Ev.isHdr]; done)
+    | (refine restartOK_cons ho ?_; intro h; have hh := hp h; unfold pendR at hh; rw [‹c.pc = _›] at hh; cases hh; done)
+    | (refine restartOK_cons ho ?_; intro h; have hh := hp h; simp_all [pendR, Ev.isHdr, IoOp.isHdr]; done)
     | (intro h; simp_all [headRestart, Ev.isRestart, pendR]; done)
     | skip
 
